@@ -63,19 +63,19 @@ func edgeU64(rt *rapid.T, label string, normal ...uint64) uint64 {
 
 func genC02P(rt *rapid.T) c02pCase {
 	c := c02pCase{
-		OracleRewardPct: edgeU64(rt, "opct", 0, 50, 70, 100),
-		TSSRewardPct:    edgeU64(rt, "tpct", 0, 10, 50, 100),
-		PriceQuorum:     gen.OneOf(rt, "quorum", "0", "0", "0.000000000000000001", "0.3", "0.5", "1", "1"),
-		SamplingTry:     gen.OneOf[uint64](rt, "try", 1, 3, 10),
-		Expiration:      gen.OneOf[uint64](rt, "exp", 1, 2, 5, 100),
-		MaxAsk:          gen.OneOf[uint64](rt, "maxask", 1, 2, 16, ^uint64(0)),
-		PenaltyNs:       gen.OneOf[uint64](rt, "pen", 0, 1, 1_000_000_000, 1<<63-1, 1<<63, ^uint64(0)),
-		SigningPeriod:   gen.OneOf[uint64](rt, "speriod", 1, 2, 100, 1<<63-1, ^uint64(0)),
-		MaxAttempt:      gen.OneOf[uint64](rt, "matt", 1, 2, 5, ^uint64(0)),
-		MaxDE:           gen.OneOf[uint64](rt, "maxde", 1, 5, 300),
-		CreationPeriod:  gen.OneOf[uint64](rt, "cperiod", 1, 3, 30000, ^uint64(0)),
-		FeedsGrace:      gen.OneOf[int64](rt, "grace", 1, 30, 1<<62),
-		FeedsCooldown:   gen.OneOf[int64](rt, "cool", 1, 30, 1<<62),
+		OracleRewardPct:  edgeU64(rt, "opct", 0, 50, 70, 100),
+		TSSRewardPct:     edgeU64(rt, "tpct", 0, 10, 50, 100),
+		PriceQuorum:      gen.OneOf(rt, "quorum", "0", "0", "0.000000000000000001", "0.3", "0.5", "1", "1"),
+		SamplingTry:      gen.OneOf[uint64](rt, "try", 1, 3, 10),
+		Expiration:       gen.OneOf[uint64](rt, "exp", 1, 2, 5, 100),
+		MaxAsk:           gen.OneOf[uint64](rt, "maxask", 1, 2, 16, ^uint64(0)),
+		PenaltyNs:        gen.OneOf[uint64](rt, "pen", 0, 1, 1_000_000_000, 1<<63-1, 1<<63, ^uint64(0)),
+		SigningPeriod:    gen.OneOf[uint64](rt, "speriod", 1, 2, 100, 1<<63-1, ^uint64(0)),
+		MaxAttempt:       gen.OneOf[uint64](rt, "matt", 1, 2, 5, ^uint64(0)),
+		MaxDE:            gen.OneOf[uint64](rt, "maxde", 1, 5, 300),
+		CreationPeriod:   gen.OneOf[uint64](rt, "cperiod", 1, 3, 30000, ^uint64(0)),
+		FeedsGrace:       gen.OneOf[int64](rt, "grace", 1, 30, 1<<62),
+		FeedsCooldown:    gen.OneOf[int64](rt, "cool", 1, 30, 1<<62),
 		FeedsMinInterval: gen.OneOf[int64](rt, "fmin", 1, 60, 1<<62),
 		FeedsMaxInterval: gen.OneOf[int64](rt, "fmax", 1, 3600, 1<<62),
 		FeedsUpdate:      gen.OneOf[int64](rt, "fupd", 1, 2, 86400, 1<<62),
